@@ -215,3 +215,29 @@ def factory_lookups(values):
       if a.kind == "mcall" and repr(a.args[0]) == FACTORY_REF and repr(a.args[1]) == "lit('get')" and len(a.args) > 2:
         out.append(as_poly(a.args[2]))
   return out
+
+
+def rule_all_curves(ctx, R, keep=None):
+  """Every supported curve gets its turn: a loop of a Check body over the curve table (ec_util.CURVE_FACTORY.items()) is never left by break / return /
+  raise, and a curve is skipped (`continue` before any work) only when it is unsupported (`curve is None`) or nobody in the batch uses it."""
+  from pcstatic import sym as _sym
+  from pcstatic.poly import Poly as _Poly
+  repo = ctx.repo
+  n = 0
+  for b in bodies(repo):
+    f, w = b.func, b.w
+    if keep is not None and not keep(f.where):
+      continue
+    for li in w.loop_info.values():
+      if not li["visits"]:
+        continue
+      it = li["visits"][0]["iter"]
+      if not (isinstance(it, _Poly) and "CURVE_FACTORY" in repr(it)[:80] and "items" in repr(it)[:120]):
+        continue
+      n += 1
+      probs = []
+      for kind, val, st_, since, vis in li["body_paths"]:
+        if kind not in ("fall", "continue"):
+          probs.append("the loop over the curve table is left by `%s`: the curves after it are never examined" % kind)
+      ctx.record(R, f.where, "every curve of the table gets its turn", not probs, "; ".join(sorted(set(probs))) or "loop over CURVE_FACTORY.items() never left early")
+  return n
